@@ -482,3 +482,180 @@ func runGoStrings(o opts) error {
 	}
 	return nil
 }
+
+// ---- both sides in one loop: the host's Start builds the version list, the plugin side's
+// protocolVersion answers it, the announced line goes back into Start.
+
+type n2Case struct {
+	CVersion  int        `json:"cversion"`
+	CLegacy   bool       `json:"clegacy"`
+	CVer      []verEntry `json:"cversioned"`
+	SVersion  int        `json:"sversion"`
+	SLegacy   bool       `json:"slegacy"`
+	SLegacyK  int        `json:"slegacy_kind"`
+	SVer      []verEntry `json:"sversioned"`
+	Factory   bool       `json:"factory"`
+}
+
+func init() { families["negotiate2"] = runNegotiate2 }
+
+func genNegotiate2(o opts) []n2Case {
+	r := hk.Rng(o.seed + 41)
+	n := 600
+	if o.tier == "thorough" {
+		n = 15000
+	}
+	if o.n > 0 {
+		n = o.n
+	}
+	cs := []n2Case{
+		{CVersion: 1, CLegacy: true, SVersion: 1, SLegacy: true, SLegacyK: 1},
+		{CVersion: 2, CLegacy: true, SVer: []verEntry{{1, 21, 2}, {2, 22, 2}}, Factory: true},                                   // legacy host, multi-version plugin
+		{CVersion: 3, CLegacy: true, CVer: []verEntry{{2, 12, 1}}, SVer: []verEntry{{2, 22, 2}, {3, 23, 2}}, Factory: true},     // mixed host: legacy is the highest common
+		{CVer: []verEntry{{2, 12, 1}, {3, 13, 1}, {5, 15, 1}, {4, 14, 1}}, SVer: []verEntry{{3, 23, 2}, {2, 22, 2}}, Factory: true}, // host two ahead
+		{CVer: []verEntry{{5, 15, 1}, {4, 14, 1}, {3, 13, 1}}, SVer: []verEntry{{3, 23, 2}, {1, 21, 2}}, Factory: true},
+		{CVer: []verEntry{{7, 17, 1}}, SVer: []verEntry{{3, 23, 2}, {1, 21, 2}}, Factory: true},                                  // disjoint
+		{CVersion: 0, CLegacy: true, CVer: []verEntry{{0, 10, 1}}, SVer: []verEntry{{0, 20, 1}}},                                 // real version 0 on the host
+	}
+	id := 100
+	for len(cs) < n {
+		var c n2Case
+		c.CVersion = r.Intn(6)
+		c.CLegacy = r.Intn(2) == 0
+		c.SVersion = r.Intn(6)
+		c.SLegacy = r.Intn(3) == 0
+		c.SLegacyK = hk.Pick(r, []int{1, 2})
+		c.Factory = r.Intn(4) != 0
+		seen := map[int]bool{}
+		for i := r.Intn(5); i > 0; i-- {
+			v := r.Intn(8)
+			if !seen[v] {
+				seen[v] = true
+				id++
+				c.CVer = append(c.CVer, verEntry{v, id, 1})
+			}
+		}
+		seen = map[int]bool{}
+		for i := r.Intn(5); i > 0; i-- {
+			v := r.Intn(8)
+			if !seen[v] {
+				seen[v] = true
+				id++
+				c.SVer = append(c.SVer, verEntry{v, id, hk.Pick(r, []int{1, 2, 2})})
+			}
+		}
+		if !c.CLegacy && len(c.CVer) == 0 {
+			c.CLegacy = true
+		}
+		cs = append(cs, c)
+	}
+	return cs
+}
+
+func runNegotiate2(o opts) error {
+	var cs []n2Case
+	if o.cases != "" {
+		if err := hk.LoadCases(o.cases, &cs); err != nil {
+			return err
+		}
+	} else {
+		cs = genNegotiate2(o)
+	}
+	sink, err := hk.NewSink(o.out, "negotiate2")
+	if err != nil {
+		return err
+	}
+	defer sink.Close()
+	devnull, _ := os.OpenFile(os.DevNull, os.O_WRONLY, 0)
+	saved := os.Stderr
+	for i, c := range cs {
+		cids, sids := map[uintptr]int{}, map[uintptr]int{}
+		ccfg := &plugin.ClientConfig{
+			HandshakeConfig:  plugin.HandshakeConfig{ProtocolVersion: uint(c.CVersion), MagicCookieKey: "K", MagicCookieValue: "V"},
+			StartTimeout:     2 * time.Second,
+			Logger:           hk.QuietLogger(),
+			SkipHostEnv:      true,
+			AllowedProtocols: []plugin.Protocol{plugin.ProtocolNetRPC, plugin.ProtocolGRPC},
+		}
+		clegacy := setSpec{1, 1}
+		if c.CLegacy {
+			ccfg.Plugins = mkSet(clegacy)
+			cids[mapPtr(ccfg.Plugins)] = clegacy.ID
+		}
+		cents := sx.L{}
+		if c.CVer != nil {
+			ccfg.VersionedPlugins = map[int]plugin.PluginSet{}
+			for _, e := range c.CVer {
+				s := mkSet(setSpec{e.ID, e.Kind})
+				ccfg.VersionedPlugins[e.V] = s
+				cids[mapPtr(s)] = e.ID
+				cents = append(cents, sx.L{sx.I(e.V), sx.I(e.ID), sx.I(e.Kind)})
+			}
+		}
+		scfg := &plugin.ServeConfig{HandshakeConfig: plugin.HandshakeConfig{ProtocolVersion: uint(c.SVersion)}}
+		slegacy := setSpec{2, c.SLegacyK}
+		if c.SLegacy {
+			scfg.Plugins = mkSet(slegacy)
+			sids[mapPtr(scfg.Plugins)] = slegacy.ID
+		}
+		sents := sx.L{}
+		if c.SVer != nil {
+			scfg.VersionedPlugins = map[int]plugin.PluginSet{}
+			for _, e := range c.SVer {
+				s := mkSet(setSpec{e.ID, e.Kind})
+				scfg.VersionedPlugins[e.V] = s
+				sids[mapPtr(s)] = e.ID
+				sents = append(sents, sx.L{sx.I(e.V), sx.I(e.ID), sx.I(e.Kind)})
+			}
+		}
+		if c.Factory {
+			scfg.GRPCServer = plugin.DefaultGRPCServer
+		}
+		sr := hk.NewScripted()
+		announced, ssid := 0, -1
+		sr.OnStart = func(s *hk.Scripted) {
+			env := ""
+			for _, kv := range s.Cmd.Env {
+				if strings.HasPrefix(kv, "PLUGIN_PROTOCOL_VERSIONS=") {
+					env = strings.TrimPrefix(kv, "PLUGIN_PROTOCOL_VERSIONS=")
+				}
+			}
+			os.Setenv("PLUGIN_PROTOCOL_VERSIONS", env)
+			os.Stderr = devnull
+			v, p, set := plugin.VerifProtocolVersion(scfg)
+			os.Stderr = saved
+			announced = v
+			if set != nil {
+				if x, ok := sids[mapPtr(set)]; ok {
+					ssid = x
+				} else {
+					ssid = -2
+				}
+			}
+			fmt.Fprintf(s.StdoutW, "1|%d|tcp|127.0.0.1:1234|%s|\n", v, p)
+		}
+		ccfg.RunnerFunc = sr.RunnerFunc(nil)
+		cl := plugin.NewClient(ccfg)
+		_, serr := cl.Start()
+		ok, ver, csid := 0, 0, -1
+		if serr == nil {
+			ok = 1
+			ver = cl.NegotiatedVersion()
+			if x, found := cids[mapPtr(ccfg.Plugins)]; found {
+				csid = x
+			} else {
+				csid = -2
+			}
+		}
+		kills := sr.KillCount()
+		cl.Kill()
+		in := sx.L{
+			sx.L{sx.I(c.CVersion), sx.Bool(c.CLegacy), sx.L{sx.I(clegacy.ID), sx.I(clegacy.Kind)}, cents},
+			sx.L{sx.I(c.SVersion), sx.Bool(c.SLegacy), sx.L{sx.I(slegacy.ID), sx.I(slegacy.Kind)}, sents, sx.Bool(c.Factory)},
+		}
+		obs := sx.L{sx.I(ok), sx.I(ver), sx.I(csid), sx.I(announced), sx.I(ssid), sx.Bool(kills >= 1)}
+		sink.Put(202, fmt.Sprintf("b%d", i), in, obs, c)
+	}
+	os.Unsetenv("PLUGIN_PROTOCOL_VERSIONS")
+	return nil
+}
